@@ -29,6 +29,14 @@ The subset is deliberately strict: whatever is not listed here makes the functio
                list local is never bound to another list *name*, so no two names can share one list), `'..%d..%s..' % v` / `% (v, w)` with
                %d / %u on ints and %s on strs, `<` `<=` `>` `>=` on strs (code-point order, `Text.ltStr`), `xs.index(v)` (raising when absent),
                `min(a, b)` / `max(a, b)` on ints
+  procedures   (round 15, `proc`) a run of statements that calls functions the table declares EXTERNAL (probes of the peer, setters): each
+               becomes a parameter `ext_<name> : σ → <modelled args> → <result> × σ` over an abstract state σ that is threaded through the
+               statements in execution order; `for` loops may `break` (a fold with a done flag), a `break` that leaves the selected
+               statements sets the `stop` result; calls of the debug channel (`out.d`, `out.v`) with pure arguments are skipped; an `and`
+               chain may narrow (`X is not None and <uses of X>`), also for a declared object with Optional attributes;
+               `s.find(t)` (index or -1)
+  nested lists `List[List[Optional[str]]]`: `xs.append([v])`, `xs.append([])`, `del xs[i]`, `xs.insert(i, v)`, `xs[i].append(v)`,
+               `v in xs[i]`, and the loop `while len(xs) < n: xs.append(v)` (padding); a str is lifted to Optional[str] where one is expected
   extraction   besides whole functions, these patterns pick a piece of a bigger function (`block`: the statements chosen by the selectors
                of the table, in source order, as a function from the typed free variables to the tuple of the `out` locals; `lambda`: the
                only lambda expression of a function): the test of the `if` inside the only `for`
@@ -92,6 +100,39 @@ FUNCTIONS = [
         'free': {'check_size': 'int', 'self.__block_size': 'int'}}),
     ('read_packet_bad_length', 'ssh_socket.py', 'SSH_Socket.read_packet', {'unit': 'Logic2', 'extract': 'if-test', 'names': ['payload_length', 'sshv'],
         'free': {'payload_length': 'int', 'sshv': 'int'}}),
+    # ---- procedures: external calls as parameters over an abstract state (unit Logic3: theorems in Props/GenLogic3.lean)
+    ('gex_probe', 'gextest.py', 'GEXTest.run', {'unit': 'Logic3', 'extract': 'proc',
+        'select': [('range', ('assign', 'smallest_modulus', 0, 3), ('if-names', ['smallest_modulus', 'banner']))],
+        'externals': {'GEXTest._send_init': {'lean': 'send_init', 'args': [5, 6, 7], 'arg_types': ['int', 'int', 'int'], 'ret': ['int', 'bool']}},
+        'passed_through': ['out', 's', 'kex_group', 'kex', 'gex_alg'], 'ignore_calls': ['out.d'], 'objects': {'banner': {'software': 'Optional[str]'}},
+        'free': {}, 'out': ['smallest_modulus', 'reconnect_failed', 'openssh_test_updated']}),
+    ('gex_report_guard', 'gextest.py', 'GEXTest.run', {'unit': 'Logic3', 'extract': 'if-test', 'names': ['smallest_modulus'], 'count': 3, 'nth': 0,
+        'free': {'smallest_modulus': 'int'}}),
+    ('gex_rate', 'gextest.py', 'GEXTest.run', {'unit': 'Logic3', 'extract': 'block',
+        'select': [('if-names', ['smallest_modulus'], 1, 2), ('if-names', ['openssh_test_updated'])],
+        'free': {'lst': 'List[List[Optional[str]]]', 'smallest_modulus': 'int', 'openssh_test_updated': 'bool'}, 'out': ['lst']}),
+    ('policy_check_kex', 'policy.py', 'Policy.evaluate', {'unit': 'Logic3', 'extract': 'proc', 'select': [('if-with-str', 'Key exchanges')],
+        'externals': {'self._append_error': {'lean': 'append_error', 'args': [0, 1, 2, 3], 'arg_types': ['str', 'List[str]', 'Optional[List[str]]', 'List[str]'], 'ret': []}},
+        'free': {'ret': 'bool', 'self._kex': 'Optional[List[str]]', 'self._allow_algorithm_subset_and_reordering': 'bool', 'kex.kex_algorithms': 'List[str]'},
+        'nonnull': ['kex'], 'out': ['ret']}),
+    ('policy_check_hostkeys', 'policy.py', 'Policy.evaluate', {'unit': 'Logic3', 'extract': 'proc',
+        'select': [('assign', 'pruned_host_keys', 0, 2), ('if-assigning', 'pruned_host_keys'), ('if-with-str', 'Host keys')],
+        'externals': {'self._append_error': {'lean': 'append_error', 'args': [0, 1, 2, 3], 'arg_types': ['str', 'List[str]', 'Optional[List[str]]', 'List[str]'], 'ret': []}},
+        'free': {'ret': 'bool', 'self._host_keys': 'Optional[List[str]]', 'self._optional_host_keys': 'Optional[List[str]]',
+                 'self._allow_algorithm_subset_and_reordering': 'bool', 'kex.key_algorithms': 'List[str]'},
+        'nonnull': ['kex'], 'out': ['ret']}),
+    ('policy_check_compression', 'policy.py', 'Policy.evaluate', {'unit': 'Logic3', 'extract': 'proc', 'select': [('if-with-str', 'Compression')],
+        'externals': {'self._append_error': {'lean': 'append_error', 'args': [0, 1, 2, 3], 'arg_types': ['str', 'List[str]', 'Optional[List[str]]', 'List[str]'], 'ret': []}},
+        'free': {'ret': 'bool', 'self._compressions': 'Optional[List[str]]', 'kex.server.compression': 'List[str]'},
+        'nonnull': ['kex', 'kex.server'], 'out': ['ret']}),
+    ('policy_check_ciphers', 'policy.py', 'Policy.evaluate', {'unit': 'Logic3', 'extract': 'proc', 'select': [('if-with-str', 'Ciphers')],
+        'externals': {'self._append_error': {'lean': 'append_error', 'args': [0, 1, 2, 3], 'arg_types': ['str', 'List[str]', 'Optional[List[str]]', 'List[str]'], 'ret': []}},
+        'free': {'ret': 'bool', 'self._ciphers': 'Optional[List[str]]', 'self._allow_algorithm_subset_and_reordering': 'bool', 'kex.server.encryption': 'List[str]'},
+        'nonnull': ['kex', 'kex.server'], 'out': ['ret']}),
+    ('policy_check_macs', 'policy.py', 'Policy.evaluate', {'unit': 'Logic3', 'extract': 'proc', 'select': [('if-with-str', 'MACs')],
+        'externals': {'self._append_error': {'lean': 'append_error', 'args': [0, 1, 2, 3], 'arg_types': ['str', 'List[str]', 'Optional[List[str]]', 'List[str]'], 'ret': []}},
+        'free': {'ret': 'bool', 'self._macs': 'Optional[List[str]]', 'self._allow_algorithm_subset_and_reordering': 'bool', 'kex.server.mac': 'List[str]'},
+        'nonnull': ['kex', 'kex.server'], 'out': ['ret']}),
     ('is_print_ascii_char', 'utils.py', 'Utils.is_print_ascii', {'unit': 'Logic2', 'extract': 'lambda', 'params': ['int']}),
     # candidates that are outside the subset (kept in the table so that the reason is reported on every run)
     ('ctoi', 'utils.py', 'Utils.ctoi', {}),
@@ -130,7 +171,17 @@ def ttuple(ts):
     return ('tuple',) + tuple(ts)
 
 
+STATE = ('state',)
+OBJ = ('obj',)
+
+
 def lean_type(t):
+    if t == STATE:
+        return 'σ'
+    if t[0] == 'opt' and t[1][0] == 'tuple':
+        return 'Option (%s)' % lean_type(t[1])
+    if t == OBJ:
+        return 'Bool'
     if t == INT:
         return 'Int'
     if t == STR:
@@ -179,7 +230,8 @@ def parse_annotation(a):
 
 def type_of_name(s):
     return {'int': INT, 'str': STR, 'bool': BOOL, 'bytes': BYTES, 'List[str]': tlist(STR), 'List[int]': tlist(INT),
-            'Optional[str]': topt(STR), 'Optional[int]': topt(INT)}[s]
+            'Optional[str]': topt(STR), 'Optional[int]': topt(INT), 'List[List[Optional[str]]]': tlist(tlist(topt(STR))),
+            'List[Optional[str]]': tlist(topt(STR)), 'Optional[List[str]]': topt(tlist(STR))}[s]
 
 
 # ---------------------------------------------------------------- Lean literals
@@ -205,6 +257,9 @@ def lit(v, node=None):
         for c in v:
             if 0xd800 <= ord(c) <= 0xdfff:
                 bad(node, 'surrogate code point in a string literal')
+        if len(v) > 80 and all(32 <= ord(c) < 127 for c in v):
+            # a long text: as a string literal (a list display of this length is slow to elaborate and hard to state lemmas about)
+            return '("%s".toList : Str)' % v.replace('\\', '\\\\').replace('"', '\\"'), STR
         return '([%s] : Str)' % ', '.join(lchar(c) for c in v), STR
     if isinstance(v, bytes):
         return '([%s] : Bytes)' % ', '.join('%d' % b for b in v), BYTES
@@ -471,9 +526,54 @@ def render(t, monadic, ind, retconv=None):
     raise AssertionError(k)
 
 
+def dotted(node):
+    """'a.b.c' for a Name / Attribute chain, else None"""
+    parts = []
+    while isinstance(node, ast.Attribute):
+        parts.append(node.attr)
+        node = node.value
+    if isinstance(node, ast.Name):
+        parts.append(node.id)
+        return '.'.join(reversed(parts))
+    return None
+
+
+def coerce(term, frm, to):
+    """term of type `frm` where `to` is expected (a str where an Optional[str] is, element-wise in lists), or None"""
+    if frm == to:
+        return term
+    if to[0] == 'opt' and frm == to[1]:
+        return '(some %s)' % term
+    if to[0] == 'opt' and frm == NONE:
+        return 'none'
+    if to[0] == 'list' and frm[0] == 'list':
+        inner = coerce('x_', frm[1], to[1])
+        if inner is not None:
+            return '(%s.map fun x_ => %s)' % (term, inner)
+    return None
+
+
 class Tr:
     def __init__(self, fn):
         self.fn = fn
+        self.break_stack = []
+
+    def externals(self):
+        return self.fn.opts.get('externals', {})
+
+    def is_ignored_call(self, node):
+        return isinstance(node, ast.Call) and dotted(node.func) in self.fn.opts.get('ignore_calls', ())
+
+    def has_jump(self, stmts):
+        """a return, or a break that leaves these statements (not one of a loop nested inside them)"""
+        def visit(n, depth):
+            if isinstance(n, ast.Return):
+                return True
+            if isinstance(n, (ast.Break, ast.Continue)) and depth == 0:
+                return True
+            d = depth + 1 if isinstance(n, (ast.For, ast.While)) else depth
+            return any(visit(c, d) for c in ast.iter_child_nodes(n))
+        return any(visit(s_, 0) for s_ in stmts)
 
     # ------------------------------------------------------------ expressions
     # expr(node, env, binds) -> (lean term, type).  binds: list collecting (name, option term) of partial operations in evaluation
@@ -516,14 +616,15 @@ class Tr:
         if isinstance(node, ast.Attribute):
             return self.attribute(node, env)
         if isinstance(node, ast.BoolOp):
+            if isinstance(node.op, ast.And):
+                return self.and_chain(list(node.values), env, binds), BOOL
             parts = []
             for i, v in enumerate(node.values):
                 c, t = self.expr(v, env, binds if i == 0 else None)
                 if t != BOOL:
                     bad(v, 'operand of and / or that is not a bool')
                 parts.append(c)
-            op = ' && ' if isinstance(node.op, ast.And) else ' || '
-            return '(' + op.join(parts) + ')', BOOL
+            return '(' + ' || '.join(parts) + ')', BOOL
         if isinstance(node, ast.UnaryOp):
             c, t = self.expr(node.operand, env, binds)
             if isinstance(node.op, ast.Not):
@@ -552,14 +653,72 @@ class Tr:
             if ta != tb:
                 bad(node, 'conditional expression with branches of different types')
             return '(if %s then %s else %s)' % (c, a, b), ta
+        if isinstance(node, ast.ListComp):
+            # [elt for x in xs if cond ...]: one generator over a list, pure element and conditions
+            if len(node.generators) != 1 or node.generators[0].is_async or not isinstance(node.generators[0].target, ast.Name):
+                bad(node, 'list comprehension with more than one generator or a structured target')
+            g = node.generators[0]
+            xs, tx = self.expr(g.iter, env, binds)
+            if tx[0] != 'list':
+                bad(node, 'comprehension over something that is not a list')
+            v = self.fn.fresh(g.target.id)
+            env2 = dict(env)
+            env2[g.target.id] = (v, tx[1])
+            term = xs
+            for c_ in g.ifs:
+                cc, tc = self.expr(c_, env2, None)
+                if tc != BOOL:
+                    bad(node, 'comprehension condition that is not a bool')
+                term = '(%s.filter fun %s => %s)' % (term, v, cc)
+            e_, te = self.expr(node.elt, env2, None)
+            if not (isinstance(node.elt, ast.Name) and node.elt.id == g.target.id):
+                term = '(%s.map fun %s => %s)' % (term, v, e_)
+            return term, tlist(te)
         if isinstance(node, ast.Call):
             return self.call(node, env, binds)
         if isinstance(node, ast.Subscript):
             return self.subscript(node, env, binds)
         bad(node, 'expression %s is outside the subset' % type(node).__name__)
 
+    def and_chain(self, values, env, binds):
+        """`a and b and ...`; a conjunct `X is not None` narrows X (an Optional local / attribute, or a declared object) for the conjuncts after it"""
+        v, rest = values[0], values[1:]
+        if isinstance(v, ast.BoolOp) and isinstance(v.op, ast.And):
+            return self.and_chain(list(v.values) + rest, env, binds)
+        if rest and isinstance(v, ast.Compare) and len(v.ops) == 1 and isinstance(v.ops[0], ast.IsNot) \
+                and isinstance(v.comparators[0], ast.Constant) and v.comparators[0].value is None:
+            key = dotted(v.left)
+            if key is not None and key in env and env[key][1] == OBJ:
+                env2 = dict(env)
+                env2[key + '!'] = ('true', BOOL)
+                return '(%s && %s)' % (env[key][0], self.and_chain(rest, env2, None))
+            if key is not None and ('.' in key):
+                base = key.rsplit('.', 1)[0]
+                if key in env and env[key][1][0] == 'opt' and (base + '!') in env:
+                    nm = self.fn.fresh(key)
+                    env2 = dict(env)
+                    env2[key] = (nm, env[key][1][1])
+                    return '(match %s with | some %s => %s | none => false)' % (env[key][0], nm, self.and_chain(rest, env2, None))
+            if key is not None and key in env and env[key][1][0] == 'opt' and ('.' not in key or key.startswith('self.')):
+                nm = self.fn.fresh(key)
+                env2 = dict(env)
+                env2[key] = (nm, env[key][1][1])
+                return '(match %s with | some %s => %s | none => false)' % (env[key][0], nm, self.and_chain(rest, env2, None))
+        c, t = self.expr(v, env, binds)
+        if t != BOOL:
+            bad(v, 'operand of and that is not a bool')
+        if not rest:
+            return c
+        return '(%s && %s)' % (c, self.and_chain(rest, env, None))
+
     def attribute(self, node, env):
         fn = self.fn
+        key = dotted(node)
+        if key is not None and key in env and '.' in key and not key.startswith('self.'):
+            base = key.rsplit('.', 1)[0]
+            if (base + '!') not in env:
+                bad(node, 'attribute %s read where %s may be None' % (key, base))
+            return env[key]
         if not isinstance(node.value, ast.Name):
             bad(node, 'attribute of an expression')
         base, attr = node.value.id, node.attr
@@ -623,11 +782,11 @@ class Tr:
                 sym = {ast.Lt: '<', ast.LtE: '≤', ast.Gt: '>', ast.GtE: '≥'}[type(op)]
                 parts.append('decide (%s %s %s)' % (a, sym, b))
             elif isinstance(op, (ast.In, ast.NotIn)):
-                if tb[0] != 'list' or tb[1] != ta:
+                if tb[0] != 'list' or coerce(a, ta, tb[1]) is None:
                     bad(node, '`in` whose right-hand side is not a list of the left-hand type')
-                if not isinstance(nb, (ast.List, ast.Tuple, ast.Attribute, ast.Name)):
+                if not isinstance(nb, (ast.List, ast.Tuple, ast.Attribute, ast.Name, ast.Subscript)):
                     bad(node, '`in` a computed container')
-                c = '(%s).contains %s' % (b, a)
+                c = '(%s).contains %s' % (b, coerce(a, ta, tb[1]))
                 parts.append('(%s)' % c if isinstance(op, ast.In) else '(!(%s))' % c)
             else:
                 bad(node, 'comparison operator')
@@ -763,6 +922,8 @@ class Tr:
                 return '(Text.%s %s %s)' % ('startsWith' if meth == 'startswith' else 'endsWith', recv, args[0][0]), BOOL
             if meth == 'join' and tr_ == STR and len(args) == 1 and args[0][1] == tlist(STR):
                 return '(Text.join %s %s)' % (recv, args[0][0]), STR
+            if meth == 'find' and tr_ == STR and len(args) == 1 and args[0][1] == STR:
+                return '(Py.find %s %s)' % (recv, args[0][0]), INT
             if meth == 'index' and tr_[0] == 'list' and len(args) == 1 and args[0][1] == tr_[1]:
                 return self.partial(node, binds, 'Py.indexOf %s %s' % (recv, args[0][0])), INT
             bad(node, 'method call .%s(...) is outside the subset' % meth)
@@ -840,8 +1001,30 @@ class Tr:
                 elif isinstance(n, ast.For):
                     add(n.target)
                 elif isinstance(n, ast.Expr) and isinstance(n.value, ast.Call) and isinstance(n.value.func, ast.Attribute) \
-                        and n.value.func.attr in ('append', 'extend') and isinstance(n.value.func.value, ast.Name):
-                    add(n.value.func.value)
+                        and n.value.func.attr in ('append', 'extend', 'insert'):
+                    tgt = n.value.func.value
+                    if isinstance(tgt, ast.Subscript):
+                        tgt = tgt.value
+                    if isinstance(tgt, ast.Name):
+                        add(tgt)
+                elif isinstance(n, ast.Delete):
+                    for t in n.targets:
+                        if isinstance(t, ast.Subscript):
+                            add(t.value)
+                if isinstance(n, ast.Call) and dotted(n.func) in self.externals() and '$st' not in out:
+                    out.append('$st')
+        return out
+
+    def definitely_assigned(self, stmts):
+        """names bound on every path through the statements (an `if` binds what both of its branches bind)"""
+        out = set()
+        for st in stmts:
+            if isinstance(st, ast.If):
+                out |= self.definitely_assigned(st.body) & self.definitely_assigned(st.orelse)
+            elif isinstance(st, (ast.For, ast.While)):
+                continue
+            else:
+                out |= set(self.assigned([st]))
         return out
 
     def target_key(self, t):
@@ -868,6 +1051,81 @@ class Tr:
             return self.block(rest, env, k)
         if isinstance(s, ast.Pass):
             return self.block(rest, env, k)
+        if isinstance(s, ast.Break):
+            if not self.break_stack:
+                bad(s, 'break outside a translated loop / selected block')
+            return self.break_stack[-1](env)
+        if isinstance(s, ast.Expr) and self.is_ignored_call(s.value):
+            # the debug channel: skipped, provided evaluating its arguments cannot do anything but format values
+            for a in list(s.value.args) + [kw.value for kw in s.value.keywords]:
+                for n in ast.walk(a):
+                    if isinstance(n, ast.Call) and not (isinstance(n.func, ast.Name) and n.func.id in ('str', 'len', 'repr', 'bool')):
+                        bad(s, 'a call inside the arguments of a skipped debug statement')
+            return self.block(rest, env, k)
+        if isinstance(s, ast.Expr) and isinstance(s.value, ast.Call) and dotted(s.value.func) in self.externals():
+            return self.external_call(s.value, [], s, rest, env, k)
+        if isinstance(s, ast.Assign) and len(s.targets) == 1 and isinstance(s.value, ast.Call) and dotted(s.value.func) in self.externals():
+            tgt = s.targets[0]
+            tgts = list(tgt.elts) if isinstance(tgt, ast.Tuple) else [tgt]
+            if not all(isinstance(t, ast.Name) for t in tgts):
+                bad(s, 'result of an external call bound to something other than plain names')
+            return self.external_call(s.value, [t.id for t in tgts], s, rest, env, k)
+        if isinstance(s, ast.Assign) and len(s.targets) == 1 and isinstance(s.targets[0], ast.Name) and s.targets[0].id in self.fn.opts.get('opaque', ()):
+            return self.block(rest, env, k)      # an object the model does not look into (only ever handed to external calls)
+        if isinstance(s, ast.Delete):
+            if len(s.targets) != 1 or not isinstance(s.targets[0], ast.Subscript) or not isinstance(s.targets[0].value, ast.Name) \
+                    or isinstance(s.targets[0].slice, ast.Slice):
+                bad(s, 'del of something other than one list item')
+            key = s.targets[0].value.id
+            if key not in env or env[key][1][0] != 'list':
+                bad(s, 'del on something that is not a list local')
+            binds = []
+            i, ti = self.expr(s.targets[0].slice, env, binds)
+            if ti != INT:
+                bad(s, 'index that is not an int')
+            nm = self.fn.fresh(key)
+            env2 = dict(env)
+            env2[key] = (nm, env[key][1])
+            return self.wrap(binds, ('bind', nm, 'Py.delItem %s %s' % (env[key][0], i), self.block(rest, env2, k)))
+        if isinstance(s, ast.While):
+            return self.while_pad(s, rest, env, k)
+        if isinstance(s, ast.Expr) and isinstance(s.value, ast.Call) and isinstance(s.value.func, ast.Attribute) \
+                and s.value.func.attr == 'insert' and isinstance(s.value.func.value, ast.Name):
+            call = s.value
+            key = call.func.value.id
+            if key not in env or env[key][1][0] != 'list' or len(call.args) != 2 or call.keywords:
+                bad(s, '.insert() on something that is not a list local')
+            binds = []
+            i, ti = self.expr(call.args[0], env, binds)
+            v = self.list_item(call.args[1], env[key][1][1], env, binds)
+            if ti != INT:
+                bad(s, 'insert position that is not an int')
+            return self.wrap(binds, self.bind_var(key, '(Py.insert %s %s %s)' % (env[key][0], i, v), env[key][1], env, lambda e: self.block(rest, e, k)))
+        if isinstance(s, ast.Expr) and isinstance(s.value, ast.Call) and isinstance(s.value.func, ast.Attribute) \
+                and s.value.func.attr == 'append' and isinstance(s.value.func.value, ast.Subscript) and isinstance(s.value.func.value.value, ast.Name):
+            # xs[i].append(v)
+            call = s.value
+            key = call.func.value.value.id
+            if key not in env or env[key][1][0] != 'list' or env[key][1][1][0] != 'list' or len(call.args) != 1 or call.keywords \
+                    or isinstance(call.func.value.slice, ast.Slice):
+                bad(s, 'xs[i].append(v) on something that is not a list of lists')
+            binds = []
+            i, ti = self.expr(call.func.value.slice, env, binds)
+            if ti != INT:
+                bad(s, 'index that is not an int')
+            v = self.list_item(call.args[0], env[key][1][1][1], env, binds)
+            row = self.partial(s, binds, 'Py.getItem %s %s' % (env[key][0], i))
+            nm = self.fn.fresh(key)
+            env2 = dict(env)
+            env2[key] = (nm, env[key][1])
+            return self.wrap(binds, ('bind', nm, 'Py.setItem %s %s (%s ++ [%s])' % (env[key][0], i, row, v), self.block(rest, env2, k)))
+        if isinstance(s, ast.Expr) and isinstance(s.value, ast.Call) and isinstance(s.value.func, ast.Attribute) \
+                and s.value.func.attr == 'append' and isinstance(s.value.func.value, ast.Name) \
+                and s.value.func.value.id in env and env[s.value.func.value.id][1][0] == 'list' and len(s.value.args) == 1 and not s.value.keywords:
+            key = s.value.func.value.id
+            binds = []
+            v = self.list_item(s.value.args[0], env[key][1][1], env, binds)
+            return self.wrap(binds, self.bind_var(key, '(%s ++ [%s])' % (env[key][0], v), env[key][1], env, lambda e: self.block(rest, e, k)))
         if isinstance(s, ast.Expr) and isinstance(s.value, ast.Call) and isinstance(s.value.func, ast.Attribute) \
                 and s.value.func.attr in ('append', 'extend') and isinstance(s.value.func.value, ast.Name):
             call = s.value
@@ -979,6 +1237,86 @@ class Tr:
             return self.for_stmt(s, rest, env, k)
         bad(s, 'statement %s is outside the subset' % type(s).__name__)
 
+    def list_item(self, node, want, env, binds):
+        """term of type `want` for a value stored into a list (an empty list display, or a value lifted to the element type)"""
+        if isinstance(node, ast.List) and not node.elts:
+            if want[0] != 'list':
+                bad(node, 'an empty list where a %s is expected' % want[0])
+            return '([] : %s)' % lean_type(want)
+        if isinstance(node, ast.List) and want[0] == 'list':
+            items = [self.list_item(e, want[1], env, binds) for e in node.elts]
+            return '[%s]' % ', '.join(items)
+        c, t = self.expr(node, env, binds)
+        out = coerce(c, t, want)
+        if out is None:
+            bad(node, 'a value of another type stored into a list')
+        return out
+
+    def while_pad(self, s, rest, env, k):
+        """`while len(xs) < n: xs.append(v)` — padding a list local up to a length"""
+        t = s.test
+        ok = (not s.orelse and isinstance(t, ast.Compare) and len(t.ops) == 1 and isinstance(t.ops[0], ast.Lt)
+              and isinstance(t.left, ast.Call) and isinstance(t.left.func, ast.Name) and t.left.func.id == 'len' and len(t.left.args) == 1
+              and isinstance(t.left.args[0], ast.Name) and len(s.body) == 1 and isinstance(s.body[0], ast.Expr)
+              and isinstance(s.body[0].value, ast.Call) and isinstance(s.body[0].value.func, ast.Attribute) and s.body[0].value.func.attr == 'append'
+              and isinstance(s.body[0].value.func.value, ast.Name) and s.body[0].value.func.value.id == t.left.args[0].id
+              and len(s.body[0].value.args) == 1)
+        if not ok:
+            bad(s, 'a while loop other than `while len(xs) < n: xs.append(v)`')
+        key = t.left.args[0].id
+        if key not in env or env[key][1][0] != 'list':
+            bad(s, 'padding of something that is not a list local')
+        for part in (t.comparators[0], s.body[0].value.args[0]):
+            if key in names_in(part):
+                bad(s, 'the bound or the padding value reads the list being padded')
+        binds = []
+        n, tn = self.expr(t.comparators[0], env, binds)
+        if tn != INT:
+            bad(s, 'length bound that is not an int')
+        v = self.list_item(s.body[0].value.args[0], env[key][1][1], env, binds)
+        return self.wrap(binds, self.bind_var(key, '(Py.padTo %s %s %s)' % (env[key][0], n, v), env[key][1], env, lambda e: self.block(rest, e, k)))
+
+    def external_call(self, call, targets, s, rest, env, k):
+        spec = self.externals()[dotted(call.func)]
+        if '$st' not in env:
+            bad(s, 'external call outside a procedure')
+        if call.keywords:
+            bad(s, 'keyword arguments in an external call')
+        binds = []
+        args = []
+        for pos, tn in zip(spec['args'], spec['arg_types']):
+            if pos >= len(call.args):
+                bad(s, 'external call with fewer arguments than the table models')
+            c, t = self.expr(call.args[pos], env, binds)
+            c2 = coerce(c, t, type_of_name(tn))
+            if c2 is None:
+                bad(s, 'argument %d of the external call is not a %s' % (pos, tn))
+            args.append(c2 if c2 == c else '(%s)' % c2.strip('()') if c2 == 'none' else c2)
+        for pos, a in enumerate(call.args):
+            if pos not in spec['args'] and not (isinstance(a, ast.Name) and a.id in self.fn.opts.get('passed_through', ())):
+                bad(s, 'argument %d of the external call is neither modelled nor one of the objects the table lets pass through' % pos)
+        rets = [type_of_name(x) for x in spec['ret']]
+        if len(targets) != len(rets):
+            bad(s, 'external call bound to %d names, the table declares %d results' % (len(targets), len(rets)))
+        tmp = self.fn.temp()
+        term = 'ext_%s %s%s' % (spec['lean'], env['$st'][0], ''.join(' ' + a for a in args))
+        nst = self.fn.fresh('st')
+        env2 = dict(env)
+        env2['$st'] = (nst, STATE)
+        tree_fn = lambda e: self.block(rest, e, k)
+        # results: tmp.1 is the (tuple of) result(s), tmp.2 the next state
+        def chain(i, e):
+            if i == len(targets):
+                return tree_fn(e)
+            if targets[i] == '_':
+                return chain(i + 1, e)
+            key = targets[i]
+            if key in e and e[key][1] != rets[i]:
+                bad(s, 'local %s changes its type' % key)
+            return self.bind_var(key, proj('%s.1' % tmp, i, len(rets)) if rets else tmp, rets[i], e, lambda e2: chain(i + 1, e2))
+        inner = ('let', nst, ('%s.2' % tmp) if rets else tmp, chain(0, env2))
+        return self.wrap(binds, ('let', tmp, term, inner))
+
     @staticmethod
     def as_load(t):
         import copy
@@ -997,18 +1335,19 @@ class Tr:
             more = test.values[1] if len(test.values) == 2 else ast.BoolOp(op=test.op, values=test.values[1:])
         if isinstance(first, ast.Compare) and len(first.ops) == 1 and isinstance(first.ops[0], (ast.Is, ast.IsNot)) \
                 and isinstance(first.comparators[0], ast.Constant) and first.comparators[0].value is None \
-                and isinstance(first.left, ast.Name) and first.left.id in env and env[first.left.id][1][0] == 'opt':
+                and dotted(first.left) is not None and dotted(first.left) in env and env[dotted(first.left)][1][0] == 'opt':
             pos = isinstance(first.ops[0], ast.IsNot)
+            key = dotted(first.left)
             if more is None:
-                return ('some' if pos else 'none'), first.left.id, None
+                return ('some' if pos else 'none'), key, None
             if pos and conn is ast.And:
-                return 'some', first.left.id, more
+                return 'some', key, more
             if not pos and conn is ast.Or:
-                return 'none_or', first.left.id, more
+                return 'none_or', key, more
         return None
 
     def if_stmt(self, s, rest, env, k):
-        if self.contains_return([s]):
+        if self.has_jump([s]):
             then_fn = lambda e: self.block(list(s.body) + rest, e, k)
             else_fn = lambda e: self.block(list(s.orelse) + rest, e, k)
             return self.branch(s, env, then_fn, else_fn)
@@ -1016,9 +1355,7 @@ class Tr:
         names = self.assigned([s])
         merged, types = [], []
         for key in names:
-            in_body = key in self.assigned(s.body)
-            in_else = key in self.assigned(s.orelse)
-            if key in env or (in_body and in_else):
+            if key in env or (key in self.definitely_assigned(s.body) and key in self.definitely_assigned(s.orelse)):
                 merged.append(key)
             # a local bound in one branch only and not before is dropped: a later use of it is an unknown name (untranslatable)
         if not merged:
@@ -1079,8 +1416,9 @@ class Tr:
         if s.orelse:
             bad(s, 'for ... else')
         for n in ast.walk(s):
-            if isinstance(n, (ast.Return, ast.Break, ast.Continue)):
-                bad(n, 'return / break / continue inside a loop')
+            if isinstance(n, (ast.Return, ast.Continue)):
+                bad(n, 'return / continue inside a loop')
+        has_break = self.has_jump(list(s.body))
         if not isinstance(s.target, ast.Name):
             bad(s, 'loop target that is not a plain name')
         if s.target.id in env:
@@ -1107,6 +1445,11 @@ class Tr:
             bad(s, 'loop that updates no local defined before it')
         if s.target.id in carried:
             bad(s, 'loop variable shadows an updated local')
+        if has_break:
+            # a done flag travels with the updated locals; once set, the remaining passes leave everything as it is
+            env = dict(env)
+            env['$done'] = ('false', BOOL)
+            carried = ['$done'] + carried
         types = [env[key][1] for key in carried]
         lamvar = self.fn.fresh(s.target.id)
         env_b = dict(env)
@@ -1117,12 +1460,18 @@ class Tr:
             env_b[key] = (nm, types[i])
             pre.append((nm, proj('acc_', i, len(carried))))
 
-        def leaf(e):
-            vals = [e[key] for key in carried]
+        def leaf(e, done='false'):
+            vals = [e[key] if key != '$done' else (done, BOOL) for key in carried]
             if [v[1] for v in vals] != types:
                 raise Untranslatable('a local changes its type inside a loop')
             return ('ret', tuple_term([v[0] for v in vals]), None)
-        body = self.block(list(s.body), env_b, leaf)
+        self.break_stack.append(lambda e: leaf(e, 'true'))
+        try:
+            body = self.block(list(s.body), env_b, leaf)
+        finally:
+            self.break_stack.pop()
+        if has_break:
+            body = ('if', env_b['$done'][0], ('ret', 'acc_', None), body)
         for nm, term in reversed(pre):
             body = ('let', nm, term, body)
         fresh = [self.fn.fresh(key) for key in carried]
@@ -1131,6 +1480,7 @@ class Tr:
         env2.pop(s.target.id, None)
         for key, nm, t in zip(carried, fresh, types):
             env2[key] = (nm, t)
+        env2.pop('$done', None)
         inits = [env[key][0] for key in carried]
         return self.wrap(binds, ('loop', fresh, types, lamvar, elt, body, inits, listterm, self.block(rest, env2, k)))
 
@@ -1175,7 +1525,10 @@ def select_statements(func, selectors):
          ('assign', var, nth, count)        the nth (from 0, in source order) of exactly `count` such statements
          ('if', var, [names])               the only `if` statement (an `elif` is part of its `if`) with a direct assignment to var in its body
                                             and whose test reads exactly the given names
-         ('if-assigning', var)              the only `if` statement whose body directly assigns var"""
+         ('if-assigning', var)              the only `if` statement whose body directly assigns var
+         ('if-names', [names][, nth, count]) the (nth of count) `if` statement(s) whose test reads exactly these names
+         ('if-with-str', text)              the outermost `if` statement that contains the string constant `text`
+         ('range', selA, selB)              the statements from selA to selB of one block, both included"""
     lists = statement_lists(func)
     elifs = set()
     for sl in lists:
@@ -1184,6 +1537,18 @@ def select_statements(func, selectors):
                 elifs.add(id(st.orelse[0]))
     picked = []
     for sel in selectors:
+        if sel[0] == 'range':
+            a = select_statements(func, [sel[1]])[0]
+            b = select_statements(func, [sel[2]])[0]
+            home = [sl for sl in lists if any(st is a for st in sl) and any(st is b for st in sl)]
+            if len(home) != 1:
+                raise Untranslatable('the two ends of the range are not statements of one block')
+            ia = [i for i, st in enumerate(home[0]) if st is a][0]
+            ib = [i for i, st in enumerate(home[0]) if st is b][0]
+            if ia > ib:
+                raise Untranslatable('the range ends before it starts')
+            picked.extend(home[0][ia:ib + 1])
+            continue
         hits = []
         for sl in lists:
             for st in sl:
@@ -1193,7 +1558,20 @@ def select_statements(func, selectors):
                         and any(directly_assigns(b, sel[1]) for b in st.body):
                     if sel[0] == 'if-assigning' or names_in(st.test) == set(sel[2]):
                         hits.append(st)
+                elif sel[0] == 'if-with-str' and isinstance(st, ast.If) and id(st) not in elifs \
+                        and any(isinstance(n, ast.Constant) and n.value == sel[1] for n in ast.walk(st)):
+                    hits.append(st)
+                elif sel[0] == 'if-names' and isinstance(st, ast.If) and id(st) not in elifs and names_in(st.test) == set(sel[1]):
+                    hits.append(st)
         hits.sort(key=lambda st: (st.lineno, st.col_offset))
+        if sel[0] == 'if-with-str':
+            # the outermost such statement
+            hits = [h for h in hits if not any(o is not h and any(n is h for n in ast.walk(o)) for o in hits)]
+        if sel[0] == 'if-names' and len(sel) == 4:
+            if len(hits) != sel[3]:
+                raise Untranslatable('selector %r matches %d statements (expected %d)' % (tuple(sel), len(hits), sel[3]))
+            picked.append(hits[sel[2]])
+            continue
         if sel[0] == 'assign' and len(sel) == 4:
             # ('assign', var, nth, count): the nth of exactly `count` statements assigning var
             if len(hits) != sel[3]:
@@ -1358,12 +1736,58 @@ def translate_entry(name, fname, qual, opts, known):
                 if isinstance(n, ast.Return):
                     raise Untranslatable('return inside the selected block')
         tree = tr.block(stmts, env, k_out)
+    elif kind == 'proc':
+        stmts = select_statements(func, opts['select'])
+        for st in stmts:
+            for n in ast.walk(st):
+                if isinstance(n, ast.Return):
+                    raise Untranslatable('return inside the selected statements')
+        env['$st'] = ('st', STATE)
+        fn.counter['st'] = 1
+        for obj, attrs in opts.get('objects', {}).items():
+            nm = fn.fresh(obj + '_present')
+            env[obj] = (nm, OBJ)
+            params.append((nm, OBJ))
+            for attr, tn in attrs.items():
+                nm2 = fn.fresh('%s_%s' % (obj, attr))
+                env['%s.%s' % (obj, attr)] = (nm2, type_of_name(tn))
+                params.append((nm2, type_of_name(tn)))
+        for v, tn in opts['free'].items():
+            if '.' in v:
+                nm = fn.fresh(v)
+                env[v] = (nm, type_of_name(tn))
+                params.append((nm, type_of_name(tn)))
+            else:
+                add_param(v, type_of_name(tn))
+        for v in opts.get('nonnull', ()):
+            env[v + '!'] = ('true', BOOL)
+        outs = opts['out']
+
+        def k_proc(e, stop=False):
+            # left by `break`: (none, state); run to the end: (some (the out locals), state)
+            if stop:
+                return ('ret', '((none : Option (%s)), %s)' % (k_proc.otype or '_', e['$st'][0]), ('proc',))
+            vals = []
+            for o in outs:
+                if o not in e:
+                    raise Untranslatable('%s is not bound at the end of the selected statements' % o)
+                vals.append(e[o])
+            k_proc.otype = lean_type(ttuple([v[1] for v in vals])) if len(vals) > 1 else lean_type(vals[0][1])
+            k_proc.rtype = ('tuple', ('opt', ttuple([v[1] for v in vals]) if len(vals) > 1 else vals[0][1]), STATE)
+            return ('ret', '(some %s, %s)' % (tuple_term([v[0] for v in vals]), e['$st'][0]), ('proc',))
+        k_proc.otype = None
+        k_proc.rtype = None
+        tr.break_stack.append(lambda e: k_proc(e, True))
+        tree = tr.block(stmts, env, k_proc)
+        tr.break_stack.pop()
     elif kind == 'if-test':
         # the test of the only `if` / `elif` / `while` statement whose test reads exactly the names of the table (`self.x` counts as `self`)
         want = set(opts['names'])
         hits = [n for n in ast.walk(func) if isinstance(n, (ast.If, ast.While)) and names_in(n.test) == want]
-        if len(hits) != 1:
-            raise Untranslatable('expected exactly one if / while test over %s, found %d' % (sorted(want), len(hits)))
+        hits.sort(key=lambda n: (n.lineno, n.col_offset))
+        if len(hits) != opts.get('count', 1):
+            raise Untranslatable('expected exactly %d if / while test(s) over %s, found %d' % (opts.get('count', 1), sorted(want), len(hits)))
+        hits = [hits[opts.get('nth', 0)]]
         for v, tn in opts['free'].items():
             if v.startswith('self.'):
                 nm = fn.fresh(v)
@@ -1408,7 +1832,12 @@ def translate_entry(name, fname, qual, opts, known):
         tree = Tr.wrap(binds, ('ret', c, t))
     else:
         raise Untranslatable('unknown extraction kind %s' % kind)
-    rtype, conv = unify_returns(tree)
+    if kind == 'proc':
+        if k_proc.rtype is None:
+            raise Untranslatable('every path leaves the selected statements by break')
+        rtype, conv = k_proc.rtype, None
+    else:
+        rtype, conv = unify_returns(tree)
     for nm, ref, rpartial in reversed(fn.prelude):
         tree = ('bind', nm, ref, tree) if rpartial else ('let', nm, ref, tree)
     partial = is_partial(tree)
@@ -1417,6 +1846,13 @@ def translate_entry(name, fname, qual, opts, known):
         pass        # Option (Option T): outer none = raises, inner none = returns None
     body = render(tree, partial, 1, conv)
     sig = ' '.join('(%s : %s)' % (nm, lean_type(t)) for nm, t in params)
+    if kind == 'proc':
+        exts = []
+        for ename, spec in opts.get('externals', {}).items():
+            rets = [type_of_name(x) for x in spec['ret']]
+            rt = ('(%s) × σ' % lean_type(ttuple(rets))) if len(rets) > 1 else ('%s × σ' % lean_atom_type(rets[0]) if rets else 'σ')
+            exts.append('(ext_%s : σ → %s%s)' % (spec['lean'], ''.join(lean_atom_type(type_of_name(t_)) + ' → ' for t_ in spec['arg_types']), rt))
+        sig = '{σ : Type} ' + ' '.join(exts) + ' (st : σ) ' + sig
     src = '%s %s' % (fname, qual) + (' [%s]' % kind if kind else '')
     text = '/-- `%s` -/\ndef %s %s: %s :=\n%s\n' % (src, name, sig + ' ' if sig else '', lean_type(full), body)
     return text, (rtype, partial)
